@@ -98,6 +98,15 @@ fn overlay_run(a: &[&str]) -> String {
                 out.push(format!("[{}]", items.join(",")));
                 i += 3;
             }
+            "LISTFROM" => {
+                let from = sk(a[i + 3]);
+                let items: Vec<String> = overlay
+                    .list_raw_values_from_db_key(&pk(a[i + 1], a[i + 2]), Some(&from))
+                    .map(|(k, v)| format!("{}:{}", k.0[0], v[0]))
+                    .collect();
+                out.push(format!("[{}]", items.join(",")));
+                i += 4;
+            }
             _ => return "bad-script".into(),
         }
     }
